@@ -48,6 +48,13 @@ def fam_loop():
             r.append(call("AllowElementsMatching", pat="^sty"))
         if unskip: r.append(call("AllowElementsContent", names=["script", "style", "object"]))
         recipes.append(r)
+    # AllowUnsafe(true): script/style may pass and their bodies are written unescaped (conformance only: the
+    # listed properties all exclude AllowUnsafe)
+    for allowscript, comments in itertools.product([False, True], repeat=2):
+        r = list(base) + [call("AllowUnsafe", b=True)]
+        if allowscript: r.append(AA(["type"], ["script", "style"], noattrs=True))
+        if comments: r.append(call("AllowComments"))
+        recipes.append(r)
     names = {
         "b": [()],                                   # allowed, bare OK
         "a": [(), (("href", "/x"),), (("onclick", "x"),)],        # allowed, never bare
